@@ -42,6 +42,24 @@ def edge_shapes(tier):
                 prog = A.file([A.stanza("(module) @m ", st + at)])
             cases += A.both_modes("c01e-%d" % k, prog, 1 + k % 3)
             k += 1
+    # forward references and cycles between scoped variables (lazy: a forward reference is fine, a cycle is an error; strict: both fail)
+    m = c("m")
+    sv = lambda n: A.svar(m, n)
+    shapes = [
+        [A.let(sv("x"), sv("y")), A.let(sv("y"), i(1)), A.node(v("n")), A.attrn(v("n"), A.attr("v", sv("x")))],
+        [A.let(sv("x"), sv("y")), A.let(sv("y"), sv("x")), A.node(v("n")), A.attrn(v("n"), A.attr("v", sv("x")))],
+        [A.let(sv("x"), sv("x"))],
+        [A.let(sv("x"), A.lst(sv("y"))), A.let(sv("y"), A.call("concat", sv("z"), A.lst(i(1)))), A.let(sv("z"), sv("x")), A.node(v("n"))],
+        [A.let(sv("x"), A.lst(sv("y"))), A.let(sv("y"), A.call("concat", sv("z"), A.lst(i(1)))), A.let(sv("z"), A.lst(i(0))), A.node(v("n")),
+         A.attrn(v("n"), A.attr("v", sv("x")))],
+        [A.mut(sv("x"), sv("y")), A.let(sv("y"), sv("x"))],
+        [A.node(sv("n")), A.let(sv("x"), sv("y")), A.attrn(sv("n"), A.attr("v", sv("x"))), A.let(sv("y"), sv("x"))],
+        [A.let(v("a"), sv("late")), A.node(v("n")), A.edge(v("n"), v("a")), A.node(sv("late"))],
+    ]
+    for j, st in enumerate(shapes):
+        cases += A.both_modes("c01c-%d" % j, A.file([A.stanza("(module) @m ", st)]), 1 + j % 3)
+        # the same with the definitions in a second stanza (other match, same syntax node)
+        cases += A.both_modes("c01c2-%d" % j, A.file([A.stanza("(module) @m ", st[:1]), A.stanza("(module) @m ", st[1:] or [A.node(v("k"))])]), 2)
     return cases
 
 
